@@ -656,6 +656,46 @@ def flatten_internal_bases(tree):
     return n
 
 
+def hoist_walrus(tree):
+    """`if (x := e):` / `if (x := e) > 1:` / `if not (x := e):` -> `x = e` followed by the test on x: the assignment expression is the
+    first thing the test evaluates, so binding it in a statement of its own changes nothing"""
+    n = 0
+    for owner in ast.walk(tree):
+        for f in ("body", "orelse", "finalbody"):
+            blk = getattr(owner, f, None)
+            if not (isinstance(blk, list) and blk and isinstance(blk[0], ast.stmt)):
+                continue
+            i = 0
+            while i < len(blk):
+                st = blk[i]
+                if isinstance(st, ast.If):
+                    t = st.test
+                    holder, attr = None, None
+                    if isinstance(t, ast.NamedExpr):
+                        holder, attr = st, "test"
+                    elif isinstance(t, ast.Compare) and isinstance(t.left, ast.NamedExpr):
+                        holder, attr = t, "left"
+                    elif isinstance(t, ast.UnaryOp) and isinstance(t.op, ast.Not) and isinstance(t.operand, ast.NamedExpr):
+                        holder, attr = t, "operand"
+                    elif isinstance(t, ast.BoolOp) and isinstance(t.values[0], ast.NamedExpr):
+                        holder, attr = t.values, 0
+                    if holder is not None:
+                        ne = holder[attr] if isinstance(holder, list) else getattr(holder, attr)
+                        if isinstance(ne.target, ast.Name) and not any(isinstance(x, ast.NamedExpr) for x in ast.walk(ne.value)):
+                            assign = ast.copy_location(ast.Assign(targets=[ast.Name(id=ne.target.id, ctx=ast.Store())], value=ne.value), st)
+                            ref = ast.copy_location(ast.Name(id=ne.target.id, ctx=ast.Load()), ne)
+                            if isinstance(holder, list):
+                                holder[attr] = ref
+                            else:
+                                setattr(holder, attr, ref)
+                            ast.fix_missing_locations(assign)
+                            blk.insert(i, assign)
+                            n += 1
+                            i += 1
+                i += 1
+    return n
+
+
 def apply_partials(tree):
     """`g = partial(f, a, k=e)` where the local g is bound once and only ever CALLED: every `g(x, j=y)` becomes `f(a, x, k=e, j=y)` and
     the binding disappears.  The bound expressions must be plain references to names that are bound once (a partial evaluates them when
@@ -792,7 +832,7 @@ def _ensure_nf_imports(tree):
 def normalise(tree):
     """in place; returns the number of rewrites.  Order: temporaries and tuple assignments, append loops, private helpers
     (whose bodies are then already in normal form), and temporaries / tuples once more for what the inlining exposed"""
-    total = flatten_internal_bases(tree) + tables_to_branches(tree) + namedtuples_to_tuples(tree) + unroll_literal_loops(tree) + apply_partials(tree) + partials_to_defs(tree) + split_on_shared_predicates(tree) + split_conditional_returns(tree)
+    total = flatten_internal_bases(tree) + hoist_walrus(tree) + tables_to_branches(tree) + namedtuples_to_tuples(tree) + unroll_literal_loops(tree) + apply_partials(tree) + partials_to_defs(tree) + split_on_shared_predicates(tree) + split_conditional_returns(tree)
     ast.fix_missing_locations(tree)
     total += _temps_and_tuples(tree)
     n = append_loops_to_comprehensions(tree) + fuse_comprehensions(tree)
